@@ -816,7 +816,7 @@ func (r *Request) do() (resp *Response, err error) {
 // sleepContext waits for d, or until ctx ends, and reports whether the whole interval elapsed.
 func sleepContext(ctx context.Context, d time.Duration) bool {
 	if d <= 0 {
-		return true
+		return ctx.Err() == nil // nothing to wait for, but a context that has ended still ends the retries
 	}
 	t := time.NewTimer(d)
 	defer t.Stop()
